@@ -296,9 +296,10 @@ def rfc4251_mpint(v):
     return len(body).to_bytes(4, 'big') + body
 
 
-def mpint_samples():
+def mpint_samples(thorough=False):
     out = {0}
-    for b in list(range(1, 140)) + list(range(248, 264)) + list(range(1016, 1034)) + list(range(2040, 2058)) + list(range(4088, 4106)):
+    bits = range(1, 4130) if thorough else list(range(1, 140)) + list(range(248, 264)) + list(range(1016, 1034)) + list(range(2040, 2058)) + list(range(4088, 4106))
+    for b in bits:
         out.add(1 << (b - 1))            # smallest value with bit length b
         out.add((1 << b) - 1)            # largest value with bit length b
         out.add(-(1 << (b - 1)))
@@ -466,7 +467,8 @@ def mpint_pipeline(ctx, report, rule='C11.R6', signs=(1, -1)):
         report.touch(c.methods[n])
     cf, pf = cb.methods['compose_ssh_mpint'], pb.methods['parse_ssh_mpint']
     bad_c = bad_p = 0
-    for v in mpint_samples():
+    samples = mpint_samples(ctx.thorough)
+    for v in samples:
         if (v < 0 and -1 not in signs) or (v >= 0 and 1 not in signs):
             continue
         report.count(rule)
@@ -501,4 +503,4 @@ def mpint_pipeline(ctx, report, rule='C11.R6', signs=(1, -1)):
                 report.add(rule, pf.construct + '@value[%s,len=%d mod 4]' % ('negative' if v < 0 else 'non-negative', (len(want) - 4) % 4),
                            'the RFC 4251 encoding %s.. of %s.. is parsed as %s.. (cursor advance %s, encoding has %d bytes)' % (
                                want.hex()[:24], hex(v)[:14], hex(pv)[:14] if isinstance(pv, int) else pv, adv, len(want)))
-    report.sample({'rule': rule, 'values': len(mpint_samples()), 'bit_lengths': '1..139, 248..263, 1016..1033, 2040..2057, 4088..4105; min and max value of each bit length, both signs'})
+    report.sample({'rule': rule, 'values': len(samples), 'bit_lengths': ('every bit length 1..4129' if ctx.thorough else '1..139, 248..263, 1016..1033, 2040..2057, 4088..4105') + '; min and max value of each bit length, both signs'})
